@@ -1148,3 +1148,212 @@ Proof.
   apply scans_ex_app; [apply scans_if; unit_of U_sub6_scans command Hc|].
   unit_of U_sub78_scans command Hc.
 Qed.
+
+(** the completion function as a chain of units and data sections *)
+Lemma tail14 env : render env write_completion_script_14 = append nl (render env (drop_nl write_completion_script_14)).
+Proof. reflexivity. Qed.
+Lemma tail15 env : render env write_completion_script_15 = append nl (render env (drop_nl write_completion_script_15)).
+Proof. reflexivity. Qed.
+Lemma tail16 env : render env write_completion_script_16 = append nl (render env (drop_nl write_completion_script_16)).
+Proof. reflexivity. Qed.
+
+Lemma tail_text command m (nsub ntc : bool) :
+  (fmt write_completion_script_13 (env_max command m)
+   ++ (if nsub then fmt write_completion_script_14 (env_cmd command) else EmptyString)
+   ++ (if ntc then fmt write_completion_script_15 (env_cmd command) else EmptyString)
+   ++ fmt write_completion_script_16 (env_cmd command)
+   ++ fmt write_completion_script_17 (env_cmd command))%string
+  = (render (env_max command m) U_main13
+     ++ (if nsub then render (env_cmd command) U_main14 else EmptyString)
+     ++ (if ntc then render (env_cmd command) U_main15 else EmptyString)
+     ++ render (env_cmd command) U_main16
+     ++ render (env_cmd command) U_main17)%string.
+Proof.
+  unfold fmt, U_main13, U_main14, U_main15, U_main16, U_main17, seg_nl.
+  rewrite tail14, tail15, tail16, !render_app. cbn [render].
+  destruct nsub, ntc; rewrite ?QuoteRT.append_nil_r, ?append_assoc; reflexivity.
+Qed.
+
+Lemma main_a_text command :
+  (fmt write_completion_script_2 (env_cmd command) ++ fmtln write_completion_script_3 (env_cmd command))%string
+  = render (env_cmd command) U_main_a.
+Proof.
+  unfold fmt, fmtln, U_main_a, seg_nl. rewrite !render_app. cbn [render].
+  rewrite ?QuoteRT.append_nil_r, ?append_assoc. reflexivity.
+Qed.
+
+Lemma decl_subtrans_scans cmd :
+  scans cmd 1 (fmtln write_completion_script_4 []) [SDecl "subword_transitions"].
+Proof.
+  assert (E : fmtln write_completion_script_4 [] = append "    local -A subword_transitions" nl) by tpl_norm.
+  rewrite E. apply (scans_line cmd "    local -A subword_transitions" (Some (SDecl "subword_transitions"))).
+  split; [reflexivity|]. split; [intros rest; reflexivity | exact I].
+Qed.
+
+Lemma sig_scans cmd sig : no_nl sig = true -> scans cmd 1 (append "# " (append sig EmitBash.nl)) [].
+Proof.
+  intros H. rewrite <- append_assoc. apply (scans_line cmd (append "# " sig) None). apply hash_sem. exact H.
+Qed.
+
+Lemma scan_empty k cmd : scan k Bash cmd EmptyString = [].
+Proof. destruct k; reflexivity. Qed.
+
+Lemma scans_read cmd n text sts : scans cmd n text sts -> read_stmts Bash cmd text = sts.
+Proof.
+  intros [Hn H]. unfold read_stmts.
+  replace (S (String.length text)) with (n + (S (String.length text) - n))%nat by lia.
+  rewrite <- (QuoteRT.append_nil_r text) at 2. rewrite H, scan_empty, app_nil_r. reflexivity.
+Qed.
+
+Ltac unit_open2 :=
+  unfold unit_scans, unit_scans_env; intros k rest;
+  rewrite render_region by (vm_compute; reflexivity);
+  match goal with |- context [render_lines ?E ?R] =>
+    replace (List.length (region_lines R)) with (List.length (render_lines E R)) by apply map_length
+  end.
+Ltac unit_lines2 :=
+  unfold render_lines;
+  match goal with |- context [region_lines ?R] => region_list R end;
+  cbn [map].
+Ltac unit_close2 :=
+  match goal with |- _ = _ ++ ?T => generalize T; intro end; vm_compute; reflexivity.
+
+Lemma U_head_scans0 command : unit_scans_env command [] U_head [].
+Proof.
+  unit_open2. erewrite scan_lines_sem.
+  2:{ unit_lines2. repeat (eapply Forall2_cons; [closed_line|]). apply Forall2_nil. }
+  unit_close2.
+Qed.
+
+Lemma rows_scans cmd (rows : list (N * list (N * N))) :
+  scans cmd (List.length (row_stmts "subword_transitions" rows))
+    (sconcat (map (fun row : N * list (N * N) =>
+                     fmtln write_completion_script_5
+                       [("state", sN (fst row)); ("state_transitions", join " " (map kv (snd row)))]) rows))
+    (row_stmts "subword_transitions" rows).
+Proof.
+  rewrite (sconcat_map_fmtln _ (fun row => row_line "subword_transitions" (fst row) (snd row)))
+    by (intros [s0 row]; apply tpl_subrow).
+  apply (reads_scans cmd (row_lines "subword_transitions" rows)). apply reads_rows. auto.
+Qed.
+
+Lemma sub_levels_scans cmd levels :
+  scans cmd (List.length (level_stmts "subword_transitions_level_" levels))
+    (write_levels write_completion_script_11 write_completion_script_12 levels)
+    (level_stmts "subword_transitions_level_" levels).
+Proof. rewrite write_levels_sub. apply reads_scans. apply reads_levels. auto. Qed.
+
+Theorem bash_script_read command sig start nd a groups s :
+  name_ok command -> no_nl sig = true ->
+  Forall (fun c => body_ok (cmd_body c)) (a_commands a) ->
+  script command sig start nd a groups = Ok s ->
+  exists sts, script_stmts command start nd a groups = Ok sts /\ read_stmts Bash command s = sts.
+Proof.
+  intros Hc Hsig Hbodies H. unfold script in H.
+  apply obind_ok' in H. destruct H as [subs_part [Hsubs H]].
+  apply obind_ok' in H. destruct H as [subtrans_part [Hst H]].
+  (* the groups and the matcher *)
+  assert (G : exists gs, (if n_subwords nd then
+                            do l <- omap (fun ig : N * list N => group_stmts command a (fst ig) (snd ig)) (number_from 0 groups);
+                            Ok (List.concat l ++ sub_fn_stmts command)
+                          else Ok []) = Ok gs /\ exists n, scans command n subs_part gs).
+  { destruct (n_subwords nd).
+    - apply obind_ok' in Hsubs. destruct Hsubs as [texts [Ht Hs]].
+      destruct (groups_scans command a Hc _ _ Ht) as [stss [Hss Hn]]. rewrite Hss. cbn [obind].
+      eexists. split; [reflexivity|].
+      assert (E : (sconcat texts ++ write_subword_fn command (n_sub_cmd nd) (n_sub_star nd))%string = subs_part) by congruence.
+      rewrite <- E. apply scans_ex_app; [exact Hn | apply (sub_fn_scans command Hc)].
+    - assert (E : EmptyString = subs_part) by congruence. rewrite <- E.
+      exists []. split; [reflexivity|]. exists 0%nat. apply scans_nil. }
+  destruct G as [gs [Hgs Hgn]].
+  (* the within-word transitions of the completion function *)
+  assert (T : exists st, (if n_subwords nd then
+                            do rows <- subtrans_rows a;
+                            Ok (SDecl "subword_transitions" :: row_stmts "subword_transitions" rows)
+                          else Ok []) = Ok st /\ exists n, scans command n subtrans_part st).
+  { destruct (n_subwords nd).
+    - apply obind_ok' in Hst. destruct Hst as [rows_text [Hr Hs]].
+      destruct (subtrans_text a rows_text Hr) as [rows [Hrows ->]]. rewrite Hrows. cbn [obind].
+      eexists. split; [reflexivity|].
+      assert (E : (fmtln write_completion_script_4 [] ++
+                   sconcat (map (fun row : N * list (N * N) =>
+                                   fmtln write_completion_script_5
+                                     [("state", sN (fst row)); ("state_transitions", join " " (map kv (snd row)))]) rows))%string
+                  = subtrans_part) by congruence.
+      rewrite <- E. change (SDecl "subword_transitions" :: row_stmts "subword_transitions" rows)
+        with ([SDecl "subword_transitions"] ++ row_stmts "subword_transitions" rows).
+      apply scans_ex_app; [exists 1%nat; apply decl_subtrans_scans | eexists; apply rows_scans].
+    - assert (E : EmptyString = subtrans_part) by congruence. rewrite <- E.
+      exists []. split; [reflexivity|]. exists 0%nat. apply scans_nil. }
+  destruct T as [st [Hst' Hstn]].
+  unfold script_stmts. rewrite Hgs. cbn [obind]. rewrite Hst'. cbn [obind]. eexists. split; [reflexivity|].
+  match type of H with Ok ?X = Ok _ => assert (E : X = s) by congruence end.
+  rewrite <- E. clear E H Hsubs Hst Hgs Hst'.
+  cut (exists n, scans command n
+         (sconcat
+            [("# " ++ sig ++ EmitBash.nl)%string; fmt write_completion_script_0 [];
+             sconcat (map (fun ic : N * string =>
+                             fmtln write_completion_script_1
+                               (("id", sN (fst ic)) :: ("cmd", cmd_body (snd ic)) :: env_cmd command))
+                          (number_from 0 (a_commands a)));
+             subs_part; fmt write_completion_script_2 (env_cmd command); fmtln write_completion_script_3 (env_cmd command);
+             write_literals (a_main a); write_match_transitions (a_main a); subtrans_part;
+             fmt write_completion_script_6 (("starting_state", sN start) :: env_cmd command);
+             (if n_subwords nd then fmt write_completion_script_7 (env_cmd command) else EmptyString);
+             (if n_top_cmd nd then fmt write_completion_script_8 (env_cmd command) else EmptyString);
+             (if n_top_star nd then fmt write_completion_script_9 (env_cmd command) else EmptyString);
+             fmt write_completion_script_10 (env_cmd command); write_completion_tables (a_main a);
+             (if n_subwords nd then write_levels write_completion_script_11 write_completion_script_12 (a_csub a) else EmptyString);
+             fmt write_completion_script_13 (("max_fallback_level", sN (t_maxlevel (a_main a))) :: env_cmd command);
+             (if n_subwords nd then fmt write_completion_script_14 (env_cmd command) else EmptyString);
+             (if n_top_cmd nd then fmt write_completion_script_15 (env_cmd command) else EmptyString);
+             fmt write_completion_script_16 (env_cmd command); fmt write_completion_script_17 (env_cmd command)])
+         (cmd_fns_stmts command (number_from 0 (a_commands a)) ++ gs ++
+          [SFunc ("_" ++ command); lits_stmt (a_main a)] ++ match_stmts (a_main a) ++ st ++
+          [SScalar "state" start; SScalar "word_index" 1] ++ completion_stmts (a_main a) ++
+          (if n_subwords nd then level_stmts "subword_transitions_level_" (a_csub a) else []) ++
+          [SLits "candidates" []; SLits "matches" []; SScalar "max_fallback_level" (t_maxlevel (a_main a)); SEnd;
+           SRegister [("_" ++ command)%string; command]])).
+  { intros [n Hn]. exact (scans_read _ _ _ _ Hn). }
+  cbn [sconcat].
+  rewrite (QuoteRT.append_nil_r (fmt write_completion_script_17 (env_cmd command))).
+  change (("max_fallback_level", sN (t_maxlevel (a_main a))) :: env_cmd command) with (env_max command (t_maxlevel (a_main a))).
+  rewrite tail_text.
+  rewrite <- (append_assoc (fmt write_completion_script_2 (env_cmd command)) (fmtln write_completion_script_3 (env_cmd command))).
+  rewrite main_a_text.
+  (* the statement list, regrouped along the text *)
+  match goal with |- exists n, scans _ n _ ?L =>
+    replace L with
+      ([] ++ [] ++ cmd_fns_stmts command (number_from 0 (a_commands a)) ++ gs ++ [SFunc ("_" ++ command)%string]
+       ++ [lits_stmt (a_main a)] ++ match_stmts (a_main a) ++ st ++ [SScalar "state" start; SScalar "word_index" 1]
+       ++ (if n_subwords nd then [] else []) ++ (if n_top_cmd nd then [] else []) ++ (if n_top_star nd then [] else [])
+       ++ [] ++ completion_stmts (a_main a)
+       ++ (if n_subwords nd then level_stmts "subword_transitions_level_" (a_csub a) else [])
+       ++ [SLits "candidates" []; SLits "matches" []; SScalar "max_fallback_level" (t_maxlevel (a_main a))]
+       ++ (if n_subwords nd then [] else []) ++ (if n_top_cmd nd then [] else []) ++ []
+       ++ [SEnd; SRegister [("_" ++ command)%string; command]])
+      by (destruct (n_subwords nd), (n_top_cmd nd), (n_top_star nd); cbn [app]; rewrite <- ?app_assoc; reflexivity)
+  end.
+  apply scans_ex_app; [exists 1%nat; apply (sig_scans command sig Hsig)|].
+  apply scans_ex_app; [unit_of1 (U_head_scans0 command)|].
+  apply scans_ex_app.
+  { apply (cmd_fns_scans command Hc). clear -Hbodies. revert Hbodies. generalize 0. generalize (a_commands a).
+    induction l as [|c l IH]; intros n0 Hb; cbn [number_from]; constructor; inversion Hb; subst; [assumption | apply IH; assumption]. }
+  apply scans_ex_app; [exact Hgn|].
+  apply scans_ex_app; [unit_of U_main_a_scans command Hc|].
+  apply scans_ex_app; [exists 1%nat; apply literals_scans|].
+  apply scans_ex_app; [eexists; apply match_scans|].
+  apply scans_ex_app; [exact Hstn|].
+  apply scans_ex_app; [unit_of1 (U_main6_scans command start)|].
+  apply scans_ex_app; [apply scans_if; unit_of U_main7_scans command Hc|].
+  apply scans_ex_app; [apply scans_if; unit_of U_main8_scans command Hc|].
+  apply scans_ex_app; [apply scans_if; unit_of U_main9_scans command Hc|].
+  apply scans_ex_app; [unit_of U_main10_scans command Hc|].
+  apply scans_ex_app; [eexists; apply completion_scans|].
+  apply scans_ex_app; [apply scans_if; eexists; apply sub_levels_scans|].
+  apply scans_ex_app; [unit_of1 (U_main13_scans command (t_maxlevel (a_main a)))|].
+  apply scans_ex_app; [apply scans_if; unit_of U_main14_scans command Hc|].
+  apply scans_ex_app; [apply scans_if; unit_of U_main15_scans command Hc|].
+  apply scans_ex_app; [unit_of U_main16_scans command Hc|].
+  unit_of U_main17_scans command Hc.
+Qed.
